@@ -30,6 +30,10 @@ CLAIMED = {
          "Machine-checked theorems over an executable model of _write_stream/with_stream: with suppression on and a literal prompt, what is forwarded is always the data read since attaching minus exactly the longest suffix that could still become the prompt; after a read that ends at the prompt the stream holds exactly the output, detaching drops the held-back prompt, nothing leaks; with suppression off everything is forwarded; all attached streams get the same text. The full property is refuted (theorems C08_*_refuted, known findings) for regex prompts and for nested attachments with different modes. Tied to /repo by differential runs over all compositions of short streams and attach/detach sequences.",
          "Trusted: Coq kernel + vm_compute; hand-written models coq/Channel.v, Utf8.v; the correspondence harness. Known findings: regex-prompt hold-back, nested mixed modes (known_findings.json).",
          "DESIGN.md 8/C08"),
+ "C07": ("Coq proof of a world invariant over all histories (induction over operation sequences on the handle table) + correspondence with the real Channel objects",
+         "Machine-checked theorems over an executable model of borrow()/take() and the Borrowed/Taken sentinels: in every reachable world each active borrow's lender is Borrowed (all its I/O and state calls raise ChannelBorrowedError and change nothing), the borrower is Live with a copy of the configuration, the end of the borrow (normal or exceptional) restores the lender; a taken handle stays Taken for ever whatever is done on any handle, reports closed, and closing it leaves the transport open; configuration writes on one handle never affect another. Tied to /repo by differential runs over all short histories and random long ones on real Channel objects (in-place list mutation probes aliasing).",
+         "Trusted: Coq kernel + vm_compute; hand-written model coq/Own.v (I/O abstracted to reaches-transport-or-raises); the correspondence harness; LIFO borrow contexts.",
+         "DESIGN.md 8/C07"),
 }
 NOT_YET = "check not built yet (work in progress; will be claimed once its Coq theorems and correspondence check exist)"
 
